@@ -248,9 +248,13 @@ def gen_chain(g, n_each):
     lens = [1, 2, 3, 5, 8, 16, 17, 33, 64, 100]
     for k in range(n_each):
         n = lens[k % len(lens)]
-        st = ["general", "near-cut", "every-scale", "tiny", "near-pi"][(k // len(lens)) % 5]
+        st = ["general", "near-cut", "every-scale", "tiny", "near-pi", "constant-rate"][(k // len(lens)) % 6]
         q = gen_quat(r, r.choice(Q_STYLES))
-        rs = [scale_rotvec(r, j + k) if st == "every-scale" else gen_rotvec(r, st if r.random() < 0.8 else r.choice(RV_STYLES)) for j in range(n)]
+        rs = [scale_rotvec(r, j + k) if st == "every-scale" else gen_rotvec(r, st if r.random() < 0.8 else r.choice(RV_STYLES)) for j in range(n)] if st != "constant-rate" else None
+        if st == "constant-rate":
+            # the same increment applied n times (constant angular velocity): a result cached on the increment alone would be stale
+            v = scale_rotvec(r, k)
+            rs = [list(v) for _ in range(n)]
         if k % 2 == 0:
             out.append(mk_qchain(q, rs, style="chain:" + st))
         else:
@@ -444,6 +448,24 @@ def gen_phase1(g, n_each):
         cases.append(mk_qsum(qb, rs, style="long"))
         ql = [list(qmul(true_exp(v), qb[0])) if r.random() < 0.7 else gen_quat(r, "uniform") for v in rs]
         cases.append(mk_qdiff(ql, qb, style="long"))
+    # ---- class a/v: consecutive calls of the SAME function with the same width and different content, and with the same
+    # batch and a different single quaternion (a result cached on the first call and keyed on a size or on one argument only)
+    for n in (1, 3, 16):
+        for rep in range(2):
+            rs = [gen_rotvec(r, "general") for _ in range(n)]
+            cases.append(mk_qexp(rs, style="same-width"))
+        for rep in range(2):
+            cases.append(mk_qlog([gen_quat(r, "uniform") for _ in range(n)], style="same-width"))
+        rs = [gen_rotvec(r, "general") for _ in range(n)]
+        for rep in range(3):
+            cases.append(mk_qsum([gen_quat(r, "uniform")], rs if rep == 1 else [gen_rotvec(r, "general") for _ in range(n)], style="same-width"))
+            if rep == 0:
+                rs = cases[-1]["r"]
+        ql = [gen_quat(r, "uniform") for _ in range(n)]
+        for rep in range(3):
+            cases.append(mk_qdiff(ql if rep == 1 else [gen_quat(r, "uniform") for _ in range(n)], [gen_quat(r, "uniform")], style="same-width"))
+            if rep == 0:
+                ql = cases[-1]["ql"]
     return cases
 
 
@@ -1045,7 +1067,7 @@ def run(ctx):
         cases = [c for c in cases if not c["op"].endswith("f")]
     else:
         cases = witnesses() + load_corpus()
-        for part in (gen_phase1(ctx.gen("convert"), ctx.n(119, 2400)), gen_mean(ctx.gen("mean"), ctx.n(120, 3000)), gen_chain(ctx.gen("chain"), ctx.n(50, 1000))):
+        for part in (gen_phase1(ctx.gen("convert"), ctx.n(119, 2400)), gen_mean(ctx.gen("mean"), ctx.n(120, 3000)), gen_chain(ctx.gen("chain"), ctx.n(60, 1200))):
             off = len(cases)
             for c in part:
                 if "of" in c:
